@@ -569,8 +569,89 @@ def case_fi_twin(ctx, spec):
     return {"nontrivial": effective > 0, "labels": sorted(labs) + (["nested"] if spec["nested"] else [])}
 
 
-SUBS = {"twin": case_twin, "noisy_backtest": case_noisy_backtest, "frozen": case_frozen, "fi_twin": case_fi_twin}
-STRATS = {"twin": twin_spec, "noisy_backtest": noisy_spec, "frozen": frozen_spec, "fi_twin": fi_twin_spec}
+# ---- a decision taken while a change is pending --------------------------------------------------------------
+@st.composite
+def pending_rebalance_spec(draw):
+    """an announced change is pending (default flags: the tree is only marked stale) when rebalance(w, child, base=...) is called: what it
+    trades is what it would trade had the tree been refreshed (by an update, or by any read) in between"""
+    pa, pb = draw(st.sampled_from([10.0, 17.25, 101.3])), draw(st.sampled_from([20.0, 9.99, 50.0]))
+    first = draw(st.sampled_from([["adjust", draw(st.sampled_from([1.0, 0.5, -0.3]))], ["rebalance", "a", draw(st.sampled_from([0.1, 0.5, 0.0]))], ["transact", "b", draw(st.sampled_from([5.0, -3.0]))], ["close", "b"], ["allocate", "a", draw(st.sampled_from([0.2, -0.1]))]]))
+    return {
+        "pa": pa,
+        "pb": pb,
+        "kind": draw(st.sampled_from(["Strategy", "Strategy", "FixedIncomeStrategy"])),
+        "integer": draw(st.booleans()),
+        "w0": [draw(st.sampled_from([0.25, 0.5, 0.0])), draw(st.sampled_from([0.25, 0.4, 0.0]))],
+        "first": first,
+        "w": draw(st.sampled_from([0.5, 0.3, 0.7, -0.2])),
+        "child": draw(st.sampled_from(["a", "b"])),
+        "base_x": draw(st.sampled_from([1.0, 2.0, 0.5])),
+        "refresh": draw(st.sampled_from(["update", "read_value", "read_child_weight"])),
+    }
+
+
+def case_pending_rebalance(ctx, spec):
+    import pandas as pd
+
+    bt = ctx.bt
+    d0, d1 = pd.Timestamp("2021-06-01"), pd.Timestamp("2021-06-02")
+    data = pd.DataFrame({"a": [spec["pa"], spec["pa"] * 1.02], "b": [spec["pb"], spec["pb"] * 0.97]}, index=[d0, d1])
+    cap = 1000.0
+
+    def run(refresh):
+        cls = bt.core.FixedIncomeStrategy if spec["kind"] == "FixedIncomeStrategy" else bt.core.Strategy
+        kids = [bt.core.FixedIncomeSecurity("a"), bt.core.FixedIncomeSecurity("b")] if spec["kind"] == "FixedIncomeStrategy" else ["a", "b"]
+        s = cls("s", [], children=kids)
+        s.setup(data)
+        s.use_integer_positions(spec["integer"])
+        s.adjust(cap)
+        s.update(d0)
+        s.rebalance(spec["w0"][0], "a", base=cap)
+        s.rebalance(spec["w0"][1], "b", base=cap)
+        s.update(d0)
+        s.update(d1)
+        base = cap * spec["base_x"]
+        f = spec["first"]
+        if f[0] == "adjust":
+            s.adjust(f[1] * cap)
+        elif f[0] == "rebalance":
+            s.rebalance(f[2], f[1], base=cap)
+        elif f[0] == "transact":
+            s.transact(f[2], f[1])
+        elif f[0] == "close":
+            s.close(f[1])
+        else:
+            s.allocate(f[2] * cap, f[1])
+        if refresh == "update":
+            s.update(s.now)
+        elif refresh == "read_value":
+            s.value
+        elif refresh == "read_child_weight":
+            s.children[spec["child"]].weight if spec["child"] in s.children else s.value
+        s.rebalance(spec["w"], spec["child"], base=base)
+        s.update(s.now)
+        return {c: float(ch.position) for c, ch in s.children.items()}, float(s.capital), float(s.value)
+
+    try:
+        a = run(None)
+        b = run(spec["refresh"])
+    except ZeroDivisionError:
+        raise Discard("zero base")
+    except Exception as e:
+        raise Discard("the sequence raises (C10's business): %s" % type(e).__name__)
+    pa_, ca, va = a
+    pb_, cb_, vb = b
+    tol = 1e-9 * cap
+    if any(abs(pa_.get(k, 0.0) - pb_.get(k, 0.0)) > 1e-9 * max(1.0, abs(pb_.get(k, 0.0))) for k in set(pa_) | set(pb_)) or abs(ca - cb_) > tol:
+        raise Violation(
+            "%s pending, then rebalance(%r, %r, base=%r): positions %s cash %r; with %s in between: positions %s cash %r" % (spec["first"], spec["w"], spec["child"], cap * spec["base_x"], pa_, ca, spec["refresh"], pb_, cb_),
+            signature="pending-rebalance",
+        )
+    return {"nontrivial": any(abs(v) > 0 for v in pb_.values()), "labels": [spec["kind"], "first=" + spec["first"][0], "refresh=" + spec["refresh"]]}
+
+
+SUBS = {"twin": case_twin, "noisy_backtest": case_noisy_backtest, "frozen": case_frozen, "fi_twin": case_fi_twin, "pending_rebalance": case_pending_rebalance}
+STRATS = {"twin": twin_spec, "noisy_backtest": noisy_spec, "frozen": frozen_spec, "fi_twin": fi_twin_spec, "pending_rebalance": pending_rebalance_spec}
 
 
 def shard(ctx):
@@ -578,3 +659,4 @@ def shard(ctx):
     run_sub(ctx, "noisy_backtest", noisy_spec(), lambda s: case_noisy_backtest(ctx, s), ctx.n(320, 6000))
     run_sub(ctx, "frozen", frozen_spec(), lambda s: case_frozen(ctx, s), ctx.n(1200, 25000))
     run_sub(ctx, "fi_twin", fi_twin_spec(), lambda s: case_fi_twin(ctx, s), ctx.n(1600, 30000))
+    run_sub(ctx, "pending_rebalance", pending_rebalance_spec(), lambda s: case_pending_rebalance(ctx, s), ctx.n(1600, 30000))
